@@ -5,6 +5,11 @@ import json, subprocess, os
 ALL = ["C%02d" % i for i in range(1, 21)]
 # id -> (category, technique, level text, level note, design ref)
 CHECKS = {
+ "C07": ("fault_enumeration",
+  "exhaustive fault enumeration over the step index (every limit N, every synchronous and asynchronous cancellation point, Cancel/Uncancel orders) per corpus program, explicit-state search of the thread's cancel state machine against a reference model, plus a free-running -race pass",
+  "For each corpus program every limit N in [1..S+1], a synchronous Cancel in every built-in call, and an asynchronous Cancel by a second goroutine before every instruction (with both orders of a competing Uncancel) is executed on the real interpreter; exactly the probes before the fault point fire, the error names the first reason, the stack depth is restored; non-terminating programs stop under every limit up to a bound; all Cancel/Uncancel/SetMax/Exec sequences to a depth agree with the sticky-reason model.",
+  "Assumes the interpreter observes cancellation only through one atomic pointer read per instruction (so enumerating landing points covers all real-time schedules); the -race pass checks that premise. Corpus programs are bounded in size.",
+  "DESIGN.md §3 C07"),
  "C17": ("exploration",
   "small-scope exhaustive enumeration: every program of a feature profile and of the C01 grammar profiles is compiled, written, read back, re-written and both programs executed and compared",
   "For every enumerated program Write(CompiledProgram(Write(P))) is byte-identical and the decoded program is observably identical to the original (probe trace, globals, error text, call-stack positions, backtrace, docstrings, parameter metadata, free variables, load list, step count). Exhaustive within the reported levels.",
